@@ -566,6 +566,12 @@ void runC09() {
       if (s.op == kSsw && s.opName() == "ssw-same" && (wake2 || dur2 <= 200u)) {
         static std::atomic<int> fdone{0};
         fdone.store(0, std::memory_order_relaxed);
+        // In wake mode the task is submitted only once every new worker is parked: while workers are
+        // still spinning down, the documented centralQueueNonEmpty_ hint race (a worker's hint clear
+        // overwriting the producer's set; thread_pool.h says it is recovered by the timeout wake) can
+        // strand a single task. That is C07's known finding, not a statement about setSignalingWake,
+        // and it produced one false alarm of this check (seed 1, TSan) before this wait was added.
+        if (wake2) waitAllParked(*pool, gen2, 10.0, wake2);
         pool->schedule(
             []() {
               vrt::progress();
